@@ -12,7 +12,7 @@ CHECKS = {
          "chrono year()/ordinal() model and the f64->integer transfer argument are trusted (stated in evidence); Display formatting outside the claim."),
  "C14": ("M", TECH_M, "z3 decides on every path of the symbolically executed MIR that num_days = max(0,end-start+1), that partition(k) is an exact cover by <= max(k,1) non-empty contiguous parts (none for an empty range) and that prayer_times_dt_rng is the per-day map of exactly the days start..=end, for all start/end with |span| <= 2000 (either order) and k in 0..64; the stub assumption (the range loop carries no state besides the date) is checked natively by a range-vs-single-date differential on 7 regime-crossing ranges (both range APIs).",
          "chrono date arithmetic is modelled (trusted base); the per-day computation is a recording stub; spans and k bounded as stated."),
- "C11": ("M+K", TECH_M + "; plus " + TECH_K + " (relational bit-precise harnesses)", "z3 decides, per path of the symbolically executed MIR of hour_to_time/round_secs (4 modes x 7 keys, real hour in [-50,75] h, offsets in [-1500,1500] min, plus the exact whole-second grid), that the clock time is the mode's fixed function of the truncated unrounded second with carries through hour and midnight, moves by < 60 s, never fails from_hms_opt, that to_prayer_time copies the extreme flag and that every branch of get_imsaak ends in the Fajr-keyed conversion; Kani decides bit-precisely, for every f64 hour of a slice, that the rounded result is the mode's function of the unrounded one (quick 4 harnesses, thorough 85).",
+ "C11": ("M+K", TECH_M + "; plus " + TECH_K + " (relational bit-precise harnesses)", "z3 decides, per path of the symbolically executed MIR of hour_to_time/round_secs (4 modes x 7 keys, real hour in [-50,75] h, offsets in [-1500,1500] min, plus the exact whole-second grid), that the clock time is the mode's fixed function of the truncated unrounded second with carries through hour and midnight, moves by < 60 s, never fails from_hms_opt, that to_prayer_time copies the extreme flag and that every branch of get_imsaak ends in the Fajr-keyed conversion; Kani decides bit-precisely, for every f64 hour of a slice, that the rounded result is the mode's function of the unrounded one (quick 4 harnesses, thorough 64).",
          "exact-real semantics outside 1 microsecond guard bands (+ exact grid) for engine M; engine K harnesses use offset 0; one recorded known finding (f64 sliver where the minute carries twice)."),
  "C03": ("M", TECH_M, "z3/nlsat decides on every path of get_fajr_isha (|lat| <= 60, |dec| <= 23.7, independent angles in [9,21]) the depression-angle identity on the sine scale (0.03 deg), the side of Dhuhr, the 12 h bound, monotonicity of Fajr/Isha in the angle, get_imsaak's parameter branches, and the frame clause of the default policy (an unflagged Fajr/Isha is the conventional one).",
          "libm as uninterpreted functions constrained by instantiated theorems; exact-real f64; ephemeris accuracy and the 0.5 deg instantaneous-altitude clause outside the claim."),
@@ -24,10 +24,10 @@ CHECKS = {
          "libm as uninterpreted functions + instantiated theorems; {:.1} text rendering outside the claim; Kaaba constants must lie within 1e-4 deg of the property's."),
 }
 CHECKS.update({
- "C05": ("M", TECH_M, "z3 decides over the symbolically executed MIR that prayer_times_dt returns exactly seven entries, get_hours exactly six with Dhuhr Ok, that on the hour-angle scale Fajr < sunrise < Dhuhr < Asr < sunset < Isha (first-approximation rise/set, gaps >= 0.14 rad) within 12 h for |lat| <= 60 and angles in [9,21], that a larger angle moves Fajr earlier (Imsaak <= Fajr), and that policy None flags nothing.",
+ "C05": ("M", TECH_M, "z3 decides over the symbolically executed MIR that prayer_times_dt returns exactly seven entries, get_hours exactly six with Dhuhr Ok, that on the hour-angle scale Fajr < sunrise < Dhuhr < Asr < sunset < Isha (first-approximation rise/set, gaps >= 0.14 rad) within 12 h for |lat| <= 60 and angles in [9,21], that a larger angle moves Fajr earlier (Imsaak <= Fajr), that policy None flags nothing, and get_imsaak's branches (no fabricated or flagged Imsaak without a policy).",
          "ordering is decided against the first-approximation rise/set hour angle; libm as uninterpreted functions + instantiated theorems; rounding monotone by C11."),
- "C07": ("M", TECH_M, "z3 refutes every reachable panic outcome (unwrap/expect/index/RefCell borrow/overflow/from_hms_opt) of adj_for_ext_lat with all 15 policies, adj_for_int, get_imsaak, prayer_times_dt's assembly and hour_to_time on symbolic hours (all validity patterns), angles [0,25], intervals [0,180], offsets [-1500,1500]; the while-loop in hour_to_time is bounded for hours in [-50,75].",
-         "layered: recomputation points are stubs returning arbitrary maps; kernels below get_hours contain no panicking construct (executed symbolically under C02-C06); running time in the grazing band cos(dec)cos(lat)|sin H| < 1e-9 is excluded."),
+ "C07": ("M", TECH_M, "z3 refutes every reachable panic outcome (unwrap/expect/index/RefCell borrow/overflow/from_hms_opt) of adj_for_ext_lat with all 15 policies, adj_for_int, get_imsaak, prayer_times_dt's assembly and hour_to_time on symbolic hours (all validity patterns), angles [0,25], intervals [0,180], offsets [-1500,1500]; the while-loop in hour_to_time is bounded for hours in [-50,75]; Astro::new (every real Julian Day of 1600..2399, series tables iterated in full) and TopAstroDay::from_ad are total.",
+         "layered: recomputation points are stubs returning arbitrary maps; kernels below get_hours contain no panicking construct (executed symbolically under C02-C06); a Julian Day on which the symbolic Astro::new panics is replayed through the public call that evaluates the ephemeris exactly there; running time in the grazing band cos(dec)cos(lat)|sin H| < 1e-9 is excluded."),
  "C08": ("M", TECH_M, "z3 decides on every path of adj_for_ext_lat for the 14 policies (symbolic hours, all validity patterns, stubbed recomputation) the frame, identity and flag clauses of the property (identity also for interval-defined Isha whose discarded angle-based value is Err: recorded known finding interval-flag).",
          "named-method quantifier for intervals; A1 (interval-defined Isha exists at the substitute latitude); half-of-night exempt from the flag clause; good-day search unrolled 7 probes deep (paths still searching beyond are C09's)."),
  "C09": ("M", TECH_M, "z3 decides on every path of adj_near_good (symbolic validity pattern over offsets -B..B, B = 20 quick / 45 thorough, symbolic ordinal 1..366) that the result is the flagged value of the closest valid offset, earlier date on ties, that the search never stops before a valid offset within the bound, and that test_fajr_isha accepts a date iff both twilights of get_hours(from_jd(date)) are Ok (no second validity criterion).",
@@ -42,8 +42,8 @@ CHECKS.update({
          "PARTIAL: the accuracy of Astro::new (VSOP87/nutation/sidereal polynomial) and parallax is outside the claim - the oracle interpolates the library's own ephemeris triple; a change inside the ephemeris tables is invisible to this check."),
  "C02": ("M", TECH_M, "z3/nlsat decides the rise/set identity of get_shur_magh_m_0_adj at h0 = -0.833 (+-0.05) with adj in [0,0.5] for |lat| <= 60, get_hour_angle = sid + 360.985647 x + lon - RA(x) (mod 360) for every day fraction x, the one-step correction of get_shur_magh (0.05 deg), the Shurooq-at-m0-adj / Maghrib-at-m0+adj wiring of get_shur_dhuhr_magh with the caller's weather, and that weather reaches only this kernel with absent weather = default.",
          "PARTIAL: ephemeris accuracy (Astro::new) is outside the solver claim and covered only by the native assumption sweep against Meeus ch. 25."),
- "C13": ("M", TECH_M, "z3 decides the code-level causes of day-to-day jumps: Julian Day = day number + const - gmt/24 (so consecutive dates are exactly 1 apart over every month/year/leap boundary), RA interpolation on the unwrapped triple in every wrap case, Dhuhr within 10 s of the interpolated transit.",
-         "PARTIAL: the numeric second-difference bounds depend on the smoothness of the real ephemeris (outside the claim)."),
+ "C13": ("M", TECH_M, "z3 decides the code-level causes of day-to-day jumps: Julian Day = day number + const - gmt/24 (so consecutive dates are exactly 1 apart over every month/year/leap boundary), RA interpolation on the unwrapped triple in every wrap case, Dhuhr within 10 s of the interpolated transit, the unrounded clock conversion is truncation for all 7 keys.",
+         "PARTIAL: the numeric second-difference bounds depend on the smoothness of the real ephemeris: not solver-decided, checked by a native smoothness sweep over month/year/century ends, leap days, equinoxes and the J2000.0 epoch (all six times) and the ephemeris assumption sweep."),
  "C20": ("M", TECH_M, "z3 decides that the GMT offset flows only into JulianDay::new and shifts the Julian Day by exactly -d/24, that longitude enters the transit only through sid + lon (congruence step) and that Dhuhr tracks the interpolated transit within 10 s.",
          "PARTIAL: the end-to-end +-10 s covariance of all seven times against the real ephemeris is outside the claim."),
 })
